@@ -1,5 +1,256 @@
 import NimaVerif.Lemmas.Trivia
-/-! # C18 — trivia-algebra theorems (being proved; see Lemmas/Trivia.lean). -/
+import NimaVerif.Gen.Trivia
+/-!
+# C18 — rebuilt text is in the formatter's spacing normal form (trivia algebra)
+
+Theorems about `Model/Trivia.lean`, the transliteration of `expressions/trivia.py`, `comment.py`,
+`layout.py` that every construct renderer shares. All statements quantify over every gap text,
+every layout, every trivia list and every comment (unbounded). SPEC notions (`NormalSep`, `Piece`,
+`TriviaLine`, …) are defined in `Model/TriviaSpec.lean`. The per-construct renderers are observed
+by the harness, not modelled here.
+-/
 namespace Nima.C18
-theorem formatTrivia_nil (i : Nat) : formatTrivia [] i = [] := rfl
+
+/-! ## Translator ties -/
+
+/-- the source text of `_EMPTY_LINE_RE` the model's `hasEmptyLineRe` transliterates -/
+def emptyLineReSource : String := "\\n[ \\t]*\\n"
+/-- `_GAP_WHITESPACE_BYTES` (sorted) -/
+def gapBlankBytes : List Nat := [9, 32]
+
+theorem tie_empty_line_re : Gen.emptyLineRe = some emptyLineReSource := by decide
+theorem tie_gap_blank_bytes : Gen.gapBlankBytes = some gapBlankBytes := by decide
+
+/-- The model's blank class is the byte table's. -/
+theorem gap_blank_bytes_model (c : Char) : isGapBlank c = gapBlankBytes.contains c.toNat := by
+  have h32 : c = ' ' ↔ c.toNat = 32 :=
+    ⟨fun h => by rw [h]; rfl, fun h => by rw [← Char.ofNat_toNat c, h]⟩
+  have h9 : c = '\t' ↔ c.toNat = 9 :=
+    ⟨fun h => by rw [h]; rfl, fun h => by rw [← Char.ofNat_toNat c, h]⟩
+  by_cases h1 : c = ' '
+  · subst h1; rfl
+  · by_cases h2 : c = '\t'
+    · subst h2; rfl
+    · have n1 : ¬ c.toNat = 32 := fun h => h1 (h32.mpr h)
+      have n2 : ¬ c.toNat = 9 := fun h => h2 (h9.mpr h)
+      simp [isGapBlank, gapBlankBytes, h1, h2, n1, n2]
+
+/-- The model of the regex search has the regex's meaning: some line break, blanks, line break. -/
+theorem empty_line_re_meaning (s : Text) :
+    hasEmptyLineRe s = true ↔
+      ∃ a b m : Text, (∀ c ∈ b, isGapBlank c = true) ∧ s = a ++ '\n' :: b ++ '\n' :: m :=
+  hasEmptyLineRe_iff s
+
+/-! ## The two blank-line detectors are the same function -/
+
+/-- the early exits of `gap_has_empty_line` are redundant -/
+theorem gap_has_empty_line_is_regex (g : Text) : gapHasEmptyLine g = hasEmptyLineRe g :=
+  gapHasEmptyLine_eq_re g
+
+/-- `_gap_has_empty_line_offsets` (byte scanner; used by `append_gap_trivia_from_offsets` and the
+    sequence parser) and `gap_has_empty_line` (regex; used by `Layout.from_gap`) agree on every text. -/
+theorem empty_line_impls_agree (g : Text) : gapHasEmptyLineOffsets g = gapHasEmptyLine g := by
+  rw [gapHasEmptyLineOffsets_eq_re, gapHasEmptyLine_eq_re]
+
+/-! ## Separators are in normal form -/
+
+theorem normalSep_nil : NormalSep [] := Or.inl rfl
+theorem normalSep_space : NormalSep [' '] := Or.inr (Or.inl rfl)
+theorem normalSep_nl (k : Nat) : NormalSep ('\n' :: spaces k) := Or.inr (Or.inr ⟨k, Or.inl rfl⟩)
+theorem normalSep_nlnl (k : Nat) : NormalSep ('\n' :: '\n' :: spaces k) := Or.inr (Or.inr ⟨k, Or.inr rfl⟩)
+
+/-- `NormalSep` is decidable: it is the Boolean test `isNormalSep`. -/
+theorem normalSep_decidable (s : Text) : NormalSep s ↔ isNormalSep s = true := normalSep_iff s
+
+/-- What normal form excludes: only spaces and line breaks (no tab, no CR), at most two line breaks
+    (one blank line), and no blank before a line break (no trailing white space). -/
+theorem normalSep_clean (s : Text) (h : NormalSep s) :
+    (∀ c ∈ s, c = ' ' ∨ c = '\n') ∧ s.count '\n' ≤ 2 ∧
+    (∀ a b : Text, s = a ++ ' ' :: b → containsNL b = false) := by
+  rcases h with rfl | rfl | ⟨k, rfl | rfl⟩
+  · exact ⟨by simp, by simp, fun a b h => by simp at h⟩
+  · refine ⟨by simp, by decide, fun a b h => ?_⟩
+    have : (a ++ ' ' :: b).length = 1 := by rw [← h]; rfl
+    have hb : b = [] := by
+      cases b with
+      | nil => rfl
+      | cons x xs => simp at this; omega
+    rw [hb]; rfl
+  · refine ⟨?_, ?_, ?_⟩
+    · intro c hc
+      rcases List.mem_cons.mp hc with rfl | hc
+      · exact Or.inr rfl
+      · exact Or.inl (mem_spaces hc)
+    · rw [List.count_cons_self, count_nl_spaces]; omega
+    · intro a b h
+      cases a with
+      | nil => simp at h
+      | cons x a' =>
+        simp only [List.cons_append, List.cons.injEq] at h
+        have hsub : b.Sublist (spaces k) := by
+          rw [h.2]; exact (List.sublist_cons_self _ _).trans (List.sublist_append_right _ _)
+        exact containsNL_of_sublist hsub (containsNL_spaces k)
+  · refine ⟨?_, ?_, ?_⟩
+    · intro c hc
+      rcases List.mem_cons.mp hc with rfl | hc
+      · exact Or.inr rfl
+      · rcases List.mem_cons.mp hc with rfl | hc
+        · exact Or.inr rfl
+        · exact Or.inl (mem_spaces hc)
+    · rw [List.count_cons_self, List.count_cons_self, count_nl_spaces]; omega
+    · intro a b h
+      cases a with
+      | nil => simp at h
+      | cons x a' =>
+        cases a' with
+        | nil => simp at h
+        | cons y a'' =>
+          simp only [List.cons_append, List.cons.injEq] at h
+          have hsub : b.Sublist (spaces k) := by
+            rw [h.2.2]; exact (List.sublist_cons_self _ _).trans (List.sublist_append_right _ _)
+          exact containsNL_of_sublist hsub (containsNL_spaces k)
+
+/-- `separator_from_layout` (default `inline_sep`) only writes normal-form separators, for every
+    layout and indentation. -/
+theorem separator_normal (l : Layout) (i : Nat) : NormalSep (separatorFromLayout l i) := by
+  unfold separatorFromLayout
+  cases l.onNewline
+  · exact normalSep_space
+  · cases l.blankLine
+    · exact normalSep_nl _
+    · exact normalSep_nlnl _
+
+/-- Whatever the input gap (tabs, runs of spaces, CRLF, five blank lines, arbitrary text), the
+    separator rendered from its classification is in normal form. -/
+theorem separator_of_gap_normal (g : Text) (i : Nat) :
+    NormalSep (separatorFromLayout (Layout.fromGap g) i) := separator_normal _ i
+
+/-- `separator_from_layout_with_comments` (default `inline_sep`): the white space between the
+    rendered comment block `cs` and the next token is in normal form — the separator itself when
+    `cs` does not end in a line break, the closing line break of `cs` plus the separator when it does. -/
+theorem separator_with_comments_normal (l : Layout) (cs : Text) (includeIndent : Bool) :
+    (endsWithNL cs = false → NormalSep (separatorFromLayoutWithComments l cs [' '] includeIndent)) ∧
+    (endsWithNL cs = true → NormalSep ('\n' :: separatorFromLayoutWithComments l cs [' '] includeIndent)) := by
+  unfold separatorFromLayoutWithComments
+  have hne : endsWithNL cs = true → cs.isEmpty = false := by
+    intro h; cases cs with
+    | nil => simp at h
+    | cons x xs => rfl
+  cases l.onNewline
+  · -- same line
+    constructor
+    · intro he
+      simp only [Bool.false_eq_true, if_false, he, Bool.or_false]
+      split
+      · split
+        · exact normalSep_nil
+        · exact normalSep_space
+      · exact normalSep_space
+    · intro he
+      simp only [Bool.false_eq_true, if_false, he, Bool.or_true, hne he, Bool.not_false, if_true]
+      exact normalSep_nl 0
+  · -- on a new line
+    simp only [if_true]
+    cases l.blankLine <;> cases includeIndent <;> constructor <;> intro he <;>
+      simp only [he, Bool.false_eq_true, if_false, if_true, List.nil_append, List.append_nil,
+        List.cons_append]
+    all_goals first
+      | exact normalSep_nl _
+      | exact normalSep_nlnl _
+      | exact normalSep_nl 0
+      | exact normalSep_nlnl 0
+
+/-- `format_interstitial_trivia_with_separator` (default `inline_sep`): the white space between
+    the rendered trivia and the next token is in normal form, whatever the items, the layout and the
+    options. -/
+theorem interstitial_separator_normal (items : List Trivia) (l : Layout) (i : Nat) (inlineNL includeIndent dropBlank : Bool)
+    (strip : Option Text) :
+    let r := formatInterstitialTriviaWithSeparator items l i inlineNL [' '] includeIndent dropBlank strip
+    (endsWithNL r.1 = false → NormalSep r.2) ∧ (endsWithNL r.1 = true → NormalSep ('\n' :: r.2)) := by
+  simp only [formatInterstitialTriviaWithSeparator]
+  exact separator_with_comments_normal _ _ _
+
+/-! ## `format_trivia` only writes line breaks and exact indentation runs around comment tokens -/
+
+/-- For a comma-free trivia list, the output of `format_trivia` is the concatenation of pieces that
+    form whole lines: an empty line, or an indentation run of exactly the effective indent (`i`,
+    or 0 for a comment flagged inline), one comment token, one line break. So every character
+    outside the comment tokens is a line break or part of an indentation run at a line start. -/
+theorem formatTrivia_ws (ts : List Trivia) (i : Nat) (h : CommaFree ts) :
+    formatTrivia ts i = piecesText (triviaPieces i ts) ∧
+    ∃ lines : List (List Piece), triviaPieces i ts = lines.flatten ∧ ∀ ln ∈ lines, TriviaLine i ln := by
+  refine ⟨?_, triviaPieces_lines i ts h⟩
+  rw [formatTrivia_eq_flatMap ts i h, piecesText_triviaPieces]
+
+/-- all comments of the list are line comments as tree-sitter delivers them -/
+def LineTrivia (ts : List Trivia) : Prop :=
+  ∀ c, Trivia.comment c ∈ ts → c.kind = .line ∧ containsNL c.text = false
+
+theorem line_str_shape (c : Comment) (hnl : containsNL c.text = false) :
+    ∃ r, c.str = '#' :: r ∧ containsNL r = false := by
+  rw [str_line_of_no_nl c hnl]
+  split
+  · exact ⟨'!' :: c.text, rfl, by rw [containsNL_cons, hnl]; rfl⟩
+  · split
+    · exact ⟨[], rfl, rfl⟩
+    · split
+      · exact ⟨' ' :: c.text, rfl, by rw [containsNL_cons, hnl]; rfl⟩
+      · exact ⟨c.text, rfl, hnl⟩
+
+/-- Character-level form for line comments: the output is a sequence of `\n`-terminated lines, each
+    empty or exactly `k` spaces (`k = i`, or `0` for an inline-flagged comment) followed by `#…`. -/
+theorem formatTrivia_ws_lines (ts : List Trivia) (i : Nat) (h : CommaFree ts) (hl : LineTrivia ts) :
+    ∃ lines : List Text, formatTrivia ts i = lines.flatMap (· ++ ['\n']) ∧
+      ∀ ln ∈ lines, ln = [] ∨ ∃ k r, (k = 0 ∨ k = i) ∧ ln = spaces k ++ '#' :: r ∧ containsNL r = false := by
+  rw [formatTrivia_eq_flatMap ts i h]
+  induction ts with
+  | nil => exact ⟨[], rfl, by simp⟩
+  | cons t ts ih =>
+    obtain ⟨lines, he, hw⟩ := ih (commaFree_cons h) (fun c hc => hl c (List.mem_cons_of_mem _ hc))
+    rw [List.flatMap_cons, he]
+    cases t with
+    | emptyLine =>
+      refine ⟨[] :: lines, by simp [itemText], ?_⟩
+      intro ln hm
+      rcases List.mem_cons.mp hm with rfl | hm
+      · exact Or.inl rfl
+      · exact hw ln hm
+    | linebreak => exact ⟨lines, by simp [itemText], hw⟩
+    | comma => exact absurd List.mem_cons_self h
+    | comment c =>
+      obtain ⟨hk, hnl⟩ := hl c List.mem_cons_self
+      obtain ⟨r, hr, hrnl⟩ := line_str_shape c hnl
+      have htok : c.token (c.effIndent i) = '#' :: r := by simp [Comment.token, hk, hr]
+      refine ⟨(spaces (c.effIndent i) ++ '#' :: r) :: lines, ?_, ?_⟩
+      · simp [itemText, rebuild_eq_token, htok]
+      · intro ln hm
+        rcases List.mem_cons.mp hm with rfl | hm
+        · refine Or.inr ⟨c.effIndent i, r, ?_, rfl, hrnl⟩
+          unfold Comment.effIndent; split <;> simp
+        · exact hw ln hm
+
+/-! ## Examples (non-vacuity) -/
+
+/-- a hostile gap: tab, space, CRLF, blank line, three spaces -/
+def hostileGap : Text := "\t \r\n\n   ".toList
+
+example : Layout.fromGap hostileGap = { onNewline := true, blankLine := true, indent := some 3 } := by decide
+example : separatorFromLayout (Layout.fromGap hostileGap) 2 = "\n\n   ".toList := by decide
+example : gapHasEmptyLineOffsets hostileGap = true ∧ gapHasEmptyLine hostileGap = true := by decide
+example : NormalSep (separatorFromLayout (Layout.fromGap hostileGap) 2) := by decide
+example : ¬ NormalSep hostileGap := by decide
+/-- five blank lines collapse to one -/
+example : separatorFromLayout (Layout.fromGap "\n\n\n\n\n\n  ".toList) 0 = "\n\n  ".toList := by decide
+
+/-- a trivia list with a blank line, an inline comment and a block comment -/
+def sampleTrivia : List Trivia :=
+  [.emptyLine, .comment { text := "c".toList, inline := true }, .linebreak,
+   .comment { text := "a\nb".toList, kind := .block false (some 3) }]
+
+example : CommaFree sampleTrivia := by decide
+example : formatTrivia sampleTrivia 2 = "\n# c\n  /* a\n     b */\n".toList := by decide
+example : triviaPieces 2 sampleTrivia =
+    [.ws "\n".toList, .ws [], .cmt "# c".toList, .ws "\n".toList,
+     .ws "  ".toList, .cmt "/* a\n     b */".toList, .ws "\n".toList] := by decide
+
 end Nima.C18
